@@ -77,7 +77,8 @@ def main(argv=None):
     pid = args.pid
     tier = args.tier if args.tier in ("quick", "thorough") else "quick"
     seed = int(os.environ.get("VERIF_SEED", "0") or 0)
-    z3.set_param("smt.random_seed", seed % (2 ** 31))
+    # VERIF_SEED seeds the samplers of the bounded layers only: the solvers run with their fixed default seeds, so that a
+    # proof verdict is a function of the source text alone
     t_start = time.time()
 
     if args.replay:
@@ -308,8 +309,11 @@ def main(argv=None):
     }
     if not all_proved and not failing and bounded_results and not violations:
         pass
-    os.makedirs(os.path.join(ROOT, "evidence"), exist_ok=True)
-    with open(os.path.join(ROOT, "evidence", f"{pid}.json"), "w") as f:
+    # evidence is about /repo itself; a development run against a scratch copy (PYVC_REPO) writes elsewhere
+    ev_dir = os.path.join(ROOT, "evidence") if os.path.abspath(REPO) == "/repo" else os.path.join(
+        os.environ.get("TMPDIR", "/tmp"), "pysm_scratch_evidence", os.path.basename(os.path.abspath(REPO)))
+    os.makedirs(ev_dir, exist_ok=True)
+    with open(os.path.join(ev_dir, f"{pid}.json"), "w") as f:
         json.dump(evidence, f, indent=1, default=str)
 
     if args.rebaseline:
